@@ -51,6 +51,12 @@ def run(chk, tier):
     chk.floor("R-SENTINEL", "distances entry points taking a depth", nsn, 2)
     chk.rule("R-ATOMIC", "argument failures of the add steps happen before the list is linked")
     atomic.check(chk, P, E, "hwloc_distances_add_create", "distances.c", atomic.topo_writes(E, arg_indices=(0,), ignore_paths=("next_dist_id",)), only_errno=22)
+    chk.rule("R-RELFAIL", "a pointer handed to a function that releases it on its failing paths (discovered: every failing exit released the parameter, no successful exit did) "
+             "is neither passed on nor dereferenced after that call failed: callers explored with callee outcomes forked into failed / succeeded")
+    import relfail
+    nrf, rfound = relfail.run(chk, P, ["distances.c"])
+    chk.floor("R-RELFAIL", "call sites of release-on-failure functions", nrf, 4)
+    chk.floor("R-RELFAIL", "release-on-failure functions discovered", len(rfound), 2)
     chk.decided += ["an invalid depth (hwloc_get_depth_type failure) is rejected with EINVAL before anything is removed or returned",
                     "invalid kinds / unknown flags rejected with EINVAL before any effect (all words)", "*nr reports the number of matches even when the array is smaller (capacity dataflow)",
                     "bulk copies/compares of distances arrays have the allocation's extent", "transforms keep every non-switch object (guarded kill)",
